@@ -16,7 +16,7 @@ def _target(prop):
     if prop == "C18":
         from . import c18sim
 
-        return c18sim.simulate, None
+        return c18sim.simulate, c18sim.cold_eval
     if prop == "C11":
         from . import c11sim
 
